@@ -109,9 +109,11 @@ class C04(Check):
         lens = [int(c.int('L_%d' % s, W, W + dT)) for s in range(S)]
         lim = int(c.int('limit', 1, 2 if not sym else 1))
         series = [np.zeros((L, N)) for L in lens]
-        given = list(series)
+        # the series may arrive in any iterable: a list, a tuple, or a forward-only generator
+        container = ['list', 'tuple', 'generator'][int(c.int('container', 0, 2))]
+        given = list(series) if container == 'list' else tuple(series) if container == 'tuple' else (a for a in series)
         install_la()
-        c.notes.update({'W': W, 'N': N, 'K': K, 'lens': lens, 'limit': lim, 'joint': True})
+        c.notes.update({'W': W, 'N': N, 'K': K, 'lens': lens, 'limit': lim, 'joint': True, 'container': container})
         ml = MainLoop(Rp, c, K, N * W, modes={'optimise': 'real', 'initial': 'summary'},
                       label_hook=self._hook(K, sym))
         ml.s_initial = lambda k, d: [i % K for i in range(len(d))]
